@@ -21,6 +21,7 @@ from dataclasses import dataclass
 from functools import partial
 from pathlib import Path
 from typing import TYPE_CHECKING, Any, cast
+from urllib.parse import quote
 
 import pebble
 from tqdm import tqdm
@@ -32,7 +33,9 @@ __all__ = ["Cache", "parallelise", "parallelise_keyless"]
 
 
 def _pickle_name(k: Hashable) -> str:
-    return f"{k}.p"
+    # repr keeps keys of different type apart (1 and "1"), percent-encoding it keeps
+    # path separators and other unsafe characters out of the file name, reversibly
+    return f"{quote(repr(k), safe='')}.p"
 
 
 def _pickle_load(file: Path) -> Any:
